@@ -2,4 +2,4 @@
 
 package parser
 
-func verifPoint(int) {}
+func verifPoint(int, <-chan struct{}) {}
